@@ -273,3 +273,26 @@ def u_info_table(c):
         want = T in oldset or (ann is not None and T in anns[ann][1])
         c.prove(f"table-entry-matches-{T}-iff-some-binding-so-far-carries-{T}", got == want, note=f"previous={oname} statement={label}: match={got} expected={want}")
     c.prove("other-names-untouched", set(tr.fields["annotated"]) <= {"x"})
+
+
+@unit("fits_selector.function-tag", ["C11"], ["ptera.overlay:fits_selector", S + ":check_element", TG + ":match_tag", TG + ":parse_tags"], mode="bounded",
+      bound="return annotation in {tag object, '@A', '@B & @A', '@B', none, a plain string, a type}; selector tag in {A, B, C}")
+def u_fits_function_tag(c):
+    """A tag on the function position (*:@T > y) selects exactly the functions whose RETURN annotation carries T -- written as a
+    tag object or in the string form that is recognised for variables ('@A', '@A & @B')."""
+    it = Interp(c)
+    tags = {n: it.getattr(it.get_global(TG, "tag"), n) for n in "ABC"}
+    band = lambda a, b: it.binop(ast.BitAnd(), a, b)
+    returns = [("tag.A", tags["A"], {"A"}), ("'@A'", "@A", {"A"}), ("'@B & @A'", "@B & @A", {"A", "B"}), ("'@B'", "@B", {"B"}), ("none", None, set()),
+               ("plain string", "A", set()), ("type", int, set()), ("tag.B & tag.C", band(tags["B"], tags["C"]), {"B", "C"})]
+    label, ann, carried = returns[c.choose(len(returns), "return-annotation")]
+    T = "ABC"[c.choose(3, "selector-tag")]
+    Element = it.get_global(S, "Element")
+    fel = it.call(Element, [], dict(name=None, category=tags[T], capture="/0"))
+    sel = SymObj("sel", Val.ref(z3.IntVal(c.new_id())), attrs={"element": fel, "captures": ()})
+    anns = {} if label == "none" else {"return": ann}
+    fn = SymObj("fn", Val.ref(z3.IntVal(c.new_id())), attrs={"__annotations__": anns, "__ptera_info__": {}})
+    st, res = run(it, it.get_global("ptera.overlay", "fits_selector"), [fn, sel])
+    c.prove("no-raise", st == "ok", note=f"{label}: {res!r}")
+    if st == "ok":
+        c.prove("function-selected-iff-its-return-annotation-carries-the-tag", (res is not False) == (T in carried), note=f"-> {label} against @{T}: {res!r}")
